@@ -429,6 +429,41 @@ theorem recordAll_noop {st : St N U} {occs : List (Occ N U)}
     simp only [recordAll, recordOcc_noop hr hg]
     exact ih (fun o ho => h o (List.mem_cons_of_mem _ ho))
 
+/-! ### parse-time records -/
+
+theorem recordPre_inv {st st' : St N U} {pre : List (PreItem N U)}
+    (h : recordPre st pre = .ok st') (hw : WF st) :
+    WF st' ∧ (∀ k n u, Truthy st k n u → Truthy st' k n u) ∧
+    ∀ o, PreItem.own o ∈ pre → ∀ u, o.given = some u → Truthy st' o.kind o.name u := by
+  induction pre generalizing st with
+  | nil => simp [recordPre] at h; subst h; exact ⟨hw, fun _ _ _ h => h, fun o ho => by cases ho⟩
+  | cons p t ih =>
+    cases p with
+    | own o =>
+      simp only [recordPre] at h
+      cases h1 : recordOcc st o with
+      | error e => rw [h1] at h; cases h
+      | ok st1 =>
+        rw [h1] at h
+        obtain ⟨w, m, g⟩ := ih h (recordOcc_wf h1 hw)
+        refine ⟨w, fun k n u ht => m k n u (recordOcc_truthy_mono h1 ht), ?_⟩
+        intro o' ho' u hu
+        rcases List.mem_cons.1 ho' with heq | hin
+        · cases heq; exact m _ _ _ (recordOcc_given h1 hu)
+        · exact g o' hin u hu
+    | scratch os =>
+      simp only [recordPre] at h
+      cases h1 : recordAll (St.empty : St N U) os with
+      | error e => rw [h1] at h; cases h
+      | ok st1 =>
+        rw [h1] at h
+        obtain ⟨w, m, g⟩ := ih h hw
+        refine ⟨w, m, ?_⟩
+        intro o' ho' u hu
+        rcases List.mem_cons.1 ho' with heq | hin
+        · cases heq
+        · exact g o' hin u hu
+
 /-! ### `generate_missing_uuids` -/
 
 theorem genDict_truthy (fresh : Nat → U) (d : Dict N U) (c : Nat) {n : N} {u : U}
